@@ -105,7 +105,7 @@ def _own_inputs(ctx, prog, f, selfp):
                 fn.cls.qualname in (PATH, TRAJ_) and fn.name != "project",
                 max_depth=3)
     r = it.run(f, {}, prog.cls(PATH))
-    reads = set()
+    reads, cond_reads = set(), set()
     for e in r.events:
         for key in ("value", "result", "recv", "base"):
             v = e.data.get(key)
@@ -119,9 +119,21 @@ def _own_inputs(ctx, prog, f, selfp):
                     reads.add(x.args[1])
         for x in e.live.walk():
             if x.op == "attr" and x.args[0] is selfp:
-                reads.add(x.args[1])
+                cond_reads.add(x.args[1])
+    # project's own one-shot state, whatever it is called: an attribute it
+    # only *tests* and sets itself to a constant
+    own_flag = {n for n in cond_reads - reads
+                if any(e.kind == "setattr" and e.data["base"] is selfp and
+                       e.data["name"] == n and e.depth == 0 and
+                       (tm.is_const(e.data["value"]) or
+                        e.data["value"].op in ("enum", "param") or
+                        not any(x.op == "attr" and x.args[0] is selfp
+                                for x in e.data["value"].walk()))
+                       for e in r.events)}
+    reads |= cond_reads
     cls_ = prog.cls(PATH)
     foreign = sorted(a for a in reads if a not in ALLOWED_STATE and
+                     a not in own_flag and
                      prog.find_method(cls_, a) is None)
     ctx.ob("C14.5", f, not foreign,
            f"project() reads only the pose views / timestamps / its own flag "
@@ -169,6 +181,31 @@ def _refusal_reaches_caller(ctx, prog):
     ctx.require(n >= 4, "callers of PosePath3D.project not found")
 
 
+def _flag_truth(a, selfp, flag, v):
+    """truth of a guard atom for an object whose state attribute `flag`
+    holds the constant v"""
+    fl = tm.attr(selfp, flag)
+    if v is None or not tm.is_const(v) or not any(
+            x is fl for x in a.walk()):
+        return None
+    t = a.map(lambda x: v if x is fl else None)
+    if tm.is_const(t):
+        return bool(t.args[1])
+    if t.op == "not" and tm.is_const(t.args[0]):
+        return not bool(t.args[0].args[1])
+    if t.op == "cmp" and tm.is_const(t.args[1]) and tm.is_const(t.args[2]):
+        l_, r_ = t.args[1].args[1], t.args[2].args[1]
+        import operator as _op
+        fn = {"Is": _op.is_, "IsNot": _op.is_not, "Eq": _op.eq,
+              "NotEq": _op.ne, "Lt": _op.lt, "LtE": _op.le, "Gt": _op.gt,
+              "GtE": _op.ge}.get(t.args[0])
+        try:
+            return bool(fn(l_, r_)) if fn else None
+        except TypeError:
+            return None
+    return None
+
+
 def check(ctx):
     prog = ctx.prog
     f = prog.func(f"{PATH}.project")
@@ -190,6 +227,7 @@ def check(ctx):
     _own_inputs(ctx, prog, f, selfp)
     _refusal_reaches_caller(ctx, prog)
 
+    flag_names, guard_lives = set(), []
     for member in planes:
         node = planec.members[member]
         ctx.require(isinstance(node, ast.Constant) and
@@ -364,37 +402,50 @@ def check(ctx):
 
         # ----------------------------------------------------------- C14.3
         raises = [e for e in res.of_kind("raise")]
-        # specialised with _projected unknown: the raise is controlled by it
-        guard = tm.attr(selfp, "_projected")
-        r0 = [e for e in raises if tm.fold(
-            e.live, lambda a: True if a is guard else None) is True]
         first_mut = min([e.idx for e in res.events
                          if e.kind in ("setattr", "delattr", "setitem") and
                          e.idx >= 0] or [10 ** 9])
+        # the state attribute: `_projected`, or whatever attribute of the
+        # object the refusing raise tests and project itself sets (the nulled
+        # axis, the plane ...); its value at the normal exit decides what a
+        # second call sees
+        FLAG = "_projected"
+        if not any(x is tm.attr(selfp, FLAG) for e in raises
+                   for x in e.live.walk()):
+            cands = [x.args[1] for e in raises if e.idx < first_mut
+                     for x in e.live.walk() if x.op == "attr" and
+                     x.args[0] is selfp and (selfp, x.args[1]) in res.attrs
+                     and tm.is_const(res.attrs[(selfp, x.args[1])])]
+            if cands:
+                FLAG = cands[0]
+        flag_names.add(FLAG)
+        final = res.attrs.get((selfp, FLAG))
+
+        def after(a, v=final, flag=FLAG):
+            return _flag_truth(a, selfp, flag, v)
+        r0 = [e for e in raises if tm.fold(e.live, after) is True]
+        guard_lives.extend(e.live for e in r0)
         ok = bool(r0) and r0[0].idx < first_mut and \
             "TrajectoryException" in (r0[0].data.get("exc_name") or "")
         ctx.ob("C14.3", f, ok,
                f"Plane.{member}: a second projection raises "
                f"TrajectoryException before anything is modified" if ok else
-               f"Plane.{member}: `_projected` is not tested (raising "
+               f"Plane.{member}: `{FLAG}` is not tested (raising "
                f"TrajectoryException) before the first modification",
                key=f"C14.3:{member}:guard")
         # mutations are unreachable when already projected
         muts_live = [e for e in res.events
                      if e.kind in ("setattr", "delattr", "setitem")]
-        ok = all(tm.fold(e.live, lambda a: True if a is guard else None)
-                 is False for e in muts_live)
+        ok = all(tm.fold(e.live, after) is False for e in muts_live)
         ctx.ob("C14.3", f, ok,
                f"Plane.{member}: no modification is reachable once "
                f"projected", key=f"C14.3:{member}:no-mutation-after")
-        final = res.attrs.get((selfp, "_projected"))
-        ok = final is not None and tm.is_const(final) and \
-            bool(final.args[1]) is True
+        ok = final is not None and tm.is_const(final) and bool(r0)
         ctx.ob("C14.3", f, ok,
-               f"Plane.{member}: `_projected` is set to a truthy constant "
-               f"on the normal exit" if ok else
-               f"Plane.{member}: after projecting, `_projected` is "
-               f"{fmt(final)} — the guard `if self._projected` does not "
+               f"Plane.{member}: `{FLAG}` is set to {fmt(final)} on the "
+               f"normal exit, for which the guard refuses" if ok else
+               f"Plane.{member}: after projecting, `{FLAG}` is "
+               f"{fmt(final)} — the guard of project does not "
                f"refuse a second projection",
                key=f"C14.3:{member}:set", value=fmt(final))
 
@@ -439,11 +490,21 @@ def check(ctx):
 
     init = prog.func(f"{PATH}.__init__")
     ri = Interp(prog).run(init)
-    v = ri.attrs.get((tm.param(init.params[0]), "_projected"))
-    ok = v is not None and tm.is_const(v) and not bool(v.args[1])
+    ctx.require(len(flag_names) == 1, f"project: the state attribute "
+                f"differs between the planes: {sorted(flag_names)}")
+    FLAG = flag_names.pop()
+    v = ri.attrs.get((tm.param(init.params[0]), FLAG))
+    # a fresh object must not be refused: the guard of project is false for
+    # the initial value
+    ok = v is not None and tm.is_const(v) and bool(guard_lives) and all(
+        tm.fold(lv, lambda a: _flag_truth(a, selfp, FLAG, v)) is False
+        for lv in guard_lives)
+    if FLAG == "_projected":
+        ok = v is not None and tm.is_const(v) and not bool(v.args[1])
     ctx.ob("C14.3", init, ok,
-           "__init__: `_projected` starts falsy" if ok else
-           f"__init__: `_projected` starts as {fmt(v)}",
+           f"__init__: `{FLAG}` starts as {fmt(v)}: a fresh path can be "
+           f"projected" if ok else
+           f"__init__: `{FLAG}` starts as {fmt(v)}",
            key="C14.3:init")
     # typestate ownership: nothing but __init__ (falsy) and project (truthy)
     # may write `_projected` — a reset elsewhere re-arms a second projection
@@ -451,19 +512,19 @@ def check(ctx):
     writers = []
     for q, res in sorted(sweep(prog, "plain").items()):
         for e in res.of_kind("setattr", "delattr"):
-            if e.data["name"] == "_projected" and e.depth == 0:
+            if e.data["name"] == FLAG and e.depth == 0:
                 writers.append((q, e))
         for e in res.of_kind("call"):
             if (e.data.get("name") or "") in ("builtins.setattr",
                                               "builtins.delattr") and any(
-                    tm.is_const(a, "_projected") for a in e.data["args"]):
+                    tm.is_const(a, FLAG) for a in e.data["args"]):
                 writers.append((q, e))
     foreign = [(q, e) for q, e in writers
                if q not in (f"{PATH}.__init__", f"{PATH}.project")]
     ctx.ob("C14.3", foreign[0][1] if foreign else init, not foreign,
-           f"`_projected` is written only by __init__ and project "
+           f"`{FLAG}` is written only by __init__ and project "
            f"({len(writers)} writes)" if not foreign else
-           f"{foreign[0][0]} writes `_projected`: the one-shot state of a "
+           f"{foreign[0][0]} writes `{FLAG}`: the one-shot state of a "
            f"projected trajectory can be reset, so a second projection of "
            f"the same object is no longer refused",
            key="C14.3:writers")
